@@ -574,6 +574,9 @@ func (h *hist) crashCheck() {
 	}
 	if h.flt != nil {
 		maxImages += 4
+		if !h.thorough && h.imagesChecked >= 50 {
+			maxImages = 3 // cost: a quick case recovers at most about 60 images
+		}
 	}
 	for len(pts) > maxImages {
 		i := rapid.IntRange(0, len(pts)-1).Draw(h.t, "dropImage")
